@@ -89,7 +89,7 @@ Definition upto (n : N) : list N := map N.of_nat (seq 0 (N.to_nat n)).
 
 (* [fixed] = memclr* clear memory (the repaired stubs.go); false = the original empty stubs *)
 Definition witness_clear (fixed : bool) : config * list op :=
-  (mkC false 0 true false 12345 fixed false,
+  (mkC false 0 true false 12345 fixed false false,
    sets 0 (map (fun i => (1, i)) (upto 20) ++ map (fun i => (16 + i, 100 + i)) (upto 40)) 1
    ++ [OClear]
    ++ sets 0 (map (fun i => (2, 200 + i)) (upto 9) ++ map (fun i => (1, 300 + i)) (upto 9)
@@ -97,7 +97,7 @@ Definition witness_clear (fixed : bool) : config * list op :=
    ++ map (fun i => OGet (wkey 0 2 (200 + i))) (upto 9) ++ [OLen]).
 
 Definition witness_nan : config * list op :=
-  (mkC false 0 false false 4242 true false,
+  (mkC false 0 false false 4242 true false false,
    map (fun i => OSet (wkey 2 i i) (100 + i)) (upto 4)
    ++ [OIterNew 0; OIterNext 0]
    ++ map (fun i => OSet (wkey 0 (10 + i) (10 + i)) (10 + i)) (upto 6)
